@@ -443,7 +443,7 @@ impl Check for C04Paths {
 
 pub fn run_paths(ctx: &mut Ctx) {
     let n = PATH_KEYS.len() as u64;
-    const SHAPES: u64 = 11;
+    const SHAPES: u64 = 12;
     let total = n * n * SHAPES;
     let space = format!("all {}^2 ordered pairs of member names x {} path shapes", n, SHAPES);
     run_enum(ctx, "C04.paths", total, &space, |idx| {
@@ -464,6 +464,13 @@ pub fn run_paths(ctx: &mut Ctx) {
             3 => Expr::Path { up: 0, steps: vec![key(list), Step::Idx(0)] },
             4 => Expr::Path { up: 0, steps: vec![key(k1), key("missing")] },
             5 => Expr::Path { up: 0, steps: vec![key("missing"), key(k1)] },
+            // an index far beyond the list (2^8, 2^16, 2^31, 2^32, 2^63 and neighbours, 2^64-1): nothing,
+            // whatever the index is modulo a narrower width
+            11 => {
+                const FAR: [usize; 14] = [255, 256, 257, 65_535, 65_536, 65_537, 2_147_483_648, 4_294_967_295, 4_294_967_296, 4_294_967_297, 9_223_372_036_854_775_808, 9_223_372_036_854_775_809, 18_446_744_073_709_551_614, usize::MAX];
+                let far = FAR[((idx / SHAPES) % FAR.len() as u64) as usize];
+                Expr::call("default", vec![Expr::Path { up: 0, steps: vec![key(list), Step::Idx(far)] }, Expr::Path { up: 0, steps: vec![key(list), Step::Idx(far), key(k1)] }, Expr::Lit(format!("\"beyond {}\"", far))])
+            }
             // a member name applied to a list and an index applied to an object are nothing,
             // also when the name is all digits and the list has that position
             8 => Expr::Path { up: 0, steps: vec![key(list), key(k1)] },
@@ -474,7 +481,7 @@ pub fn run_paths(ctx: &mut Ctx) {
         };
         let case = Case04 { e, vars: vec![], macros: vec![], priors: vec![], inputs: vec![input], spell: Spell { alias: false, sep: (idx % 3) as u8, sugar: false, pad: false, seed: idx } };
         let res = match C04Eval.check(&case) {
-            CaseResult::Pass(i) => CaseResult::Pass(i.class("extractor_path").class_if(!k1.is_ascii() || !k2.is_ascii(), "non_ascii_member_name").class_if(shape >= 8 && k1.bytes().all(|b| b.is_ascii_digit()), "digit_name_on_a_list_or_index_on_an_object")),
+            CaseResult::Pass(i) => CaseResult::Pass(i.class("extractor_path").class_if(!k1.is_ascii() || !k2.is_ascii(), "non_ascii_member_name").class_if((8..=10).contains(&shape) && k1.bytes().all(|b| b.is_ascii_digit()), "digit_name_on_a_list_or_index_on_an_object").class_if(shape == 11, "index_far_beyond_the_list")),
             o => o,
         };
         (Box::new(move || serde_json::to_value(&case).unwrap()), res)
